@@ -15,8 +15,8 @@ impl Check for C09 {
     }
     fn runs(&self, tier: Tier) -> u64 {
         match tier {
-            Tier::Quick => 40_000,
-            Tier::Thorough => 2_000_000,
+            Tier::Quick => 100_000,
+            Tier::Thorough => 4_000_000,
         }
     }
     fn run(&self, tape: &mut Tape, ctx: &RunCtx) -> RunOut {
@@ -31,7 +31,7 @@ impl Check for C09 {
             max_ops: 45,
             no_eviction,
             readonly_roots: 0,
-            op_weights: OpWeights { get: 4, get_noread: 3, touch: 3, set: 3, put: 4, ensure: 1, gou: 1 },
+            op_weights: OpWeights { get: 4, get_noread: 3, touch: 3, set: 3, put: 4, ensure: 1, gou: 1 }, final_prune: true
         };
         let rep = run_history(tape, &hp, ctx.detail);
         let reads = rep.counters.get("op:get").copied().unwrap_or(0) + rep.counters.get("op:touch").copied().unwrap_or(0) + rep.counters.get("op:get_noread").copied().unwrap_or(0);
